@@ -102,6 +102,11 @@ Definition dec_value (s : str) : N := fold_left (fun acc c => acc * 10 + (c - 48
 Definition valid_port16 (p : str) : bool :=
   negb (is_empty p) && forallb is_digit p && (dec_value p <=? 65535).
 
+(* host test of parseProxy: non-empty, no byte <= ' ' and no DEL (strings.ContainsFunc decodes runes; a byte
+   >= 0x80 never decodes to a rune in that range) *)
+Definition valid_host (h : str) : bool :=
+  negb (is_empty h) && negb (existsb (fun c => (c <=? 32) || (c =? 127)) h).
+
 Definition parse_proxy (s0 : str) : option pproxy :=
   let s := if parse_proxy_trims then trim_space s0 else s0 in
   if is_empty s then Some no_proxy
@@ -112,7 +117,8 @@ Definition parse_proxy (s0 : str) : option pproxy :=
            match split_host_port hostport with
            | None => None
            | Some (h, p) =>
-               if parse_proxy_validates_port && negb (valid_port16 p) then None
+               if parse_proxy_validates_host && negb (valid_host h) then None
+               else if parse_proxy_validates_port && negb (valid_port16 p) then None
                else Some {| pp_mode := parse_mode mode; pp_host := h; pp_port := p |}
            end
        end.
